@@ -17,7 +17,9 @@ def one(m):
         mutants.make_copy(root)
         path = os.path.join(root, m.get("filehint") or m["file"])
         src = open(path).read()
-        if "sed" in m:
+        if "re" in m:
+            new = re.sub(m["re"], m["to"], src)
+        elif "sed" in m:
             new = src
             for cmd in m["sed"].split(";"):
                 a = cmd.strip().split("/")
